@@ -426,6 +426,47 @@ func checkSurvivor(t pbt.TB, c CrashCase, db gdbi.GraphDB, before, after hist.Wo
 		}
 		pbt.Class(t, "recreated-after-crash")
 	}
+	// (4) the server goes on: in every graph that exists now (after a retry of AddGraph,
+	// which a client whose call was cut off would issue), an element written after the
+	// reopen is reachable through the label indexes like any other ("every existing
+	// element is reachable through its indexes", "every later operation behaves as on a
+	// server that never stopped")
+	for _, ln := range hist.Graphs {
+		real := names.Real(ln)
+		if err := db.AddGraph(real); err != nil {
+			return pbt.Discrepancy(t, c, "crash:"+inflight.Kind+":addgraph-after-reopen", "%s: AddGraph(%s) after the reopen fails: %v", where, ln, err)
+		}
+		gi, err := db.Graph(real)
+		if err != nil {
+			return pbt.Discrepancy(t, c, "crash:"+inflight.Kind+":addgraph-after-reopen", "%s: Graph(%s) after the reopen fails: %v", where, ln, err)
+		}
+		if err := gi.AddVertex([]*gdbi.Vertex{{ID: "probe-v", Label: "PV", Data: map[string]interface{}{}}}); err != nil {
+			return pbt.Discrepancy(t, c, "crash:"+inflight.Kind+":write-after-reopen", "%s: graph %s: AddVertex after the reopen fails: %v", where, ln, err)
+		}
+		if err := gi.AddEdge([]*gdbi.Edge{{ID: "probe-e", Label: "pe", From: "probe-v", To: "probe-v", Data: map[string]interface{}{}}}); err != nil {
+			return pbt.Discrepancy(t, c, "crash:"+inflight.Kind+":write-after-reopen", "%s: graph %s: AddEdge after the reopen fails: %v", where, ln, err)
+		}
+		found := false
+		for id := range gi.VertexLabelScan(context.Background(), "PV") {
+			if id == "probe-v" {
+				found = true
+			}
+		}
+		vl, _ := gi.ListVertexLabels()
+		el, _ := gi.ListEdgeLabels()
+		has := func(l []string, x string) bool {
+			for _, y := range l {
+				if y == x {
+					return true
+				}
+			}
+			return false
+		}
+		if !found || !has(vl, "PV") || !has(el, "pe") {
+			return pbt.Discrepancy(t, c, "crash:"+inflight.Kind+":written-after-reopen-not-indexed", "%s: graph %s: a vertex PV and an edge pe written after the reopen: label scan finds the vertex=%v, vertex labels %v, edge labels %v", where, ln, found, vl, el)
+		}
+		pbt.Class(t, "probe-written-after-crash")
+	}
 	return true
 }
 
